@@ -179,6 +179,58 @@ theorem c18_tryproduct (comb : List (Bool × Nat) → Nat) (i : PIn) :
       obtain ⟨r, v⟩ := t
       cases r <;> simp
 
+-- OBLIGATION c18_tryproduct_own : MethodTryProduct among competing callers of its targets (each before or after it in the priority order): the try-product's OWN call to target k executes iff it is called, target k is ready and not taken by a preceding competitor; the success bits given to the combiner are exactly the own executed calls (not "the target ran"); a target never serves both in one cycle, and what it receives is the own argument or the competitor's
+theorem c18_tryproduct_own (comb : List (Bool × Nat) → Nat) (i : PIn) (comps : List CompIn) (a : Nat)
+    (hc : i.call = some a) (hlen : comps.length = i.tgts.length) :
+    let o := withComps (tryProductStep comb) i comps
+    o.res = some (comb (effTgts i.tgts comps)) ∧
+    (effTgts i.tgts comps).map (·.1) = o.own.map (·.isSome) ∧
+    (∀ k (h : k < i.tgts.length) (h' : k < comps.length),
+      o.own[k]? = some (if (i.tgts[k]).1 = true ∧ ¬((comps[k]).first = true ∧ (comps[k]).att.isSome) then some a else none) ∧
+      (∀ x, o.own[k]? = some (some x) → o.comp[k]? = some false ∧ o.seen[k]? = some (some x)) ∧
+      (o.comp[k]? = some true → (i.tgts[k]).1 = true ∧ o.own[k]? = some none ∧ o.seen[k]? = some (comps[k]).att)) := by
+  intro o
+  have hown : o.own = (effTgts i.tgts comps).map (fun t => if t.1 then some a else none) := by
+    simp [o, withComps, tryProductStep, hc]
+  have hel : (effTgts i.tgts comps).length = i.tgts.length := by simp [effTgts, hlen]
+  refine ⟨by simp [o, withComps, tryProductStep, hc], ?_, ?_⟩
+  · rw [hown, List.map_map]
+    apply List.map_congr_left
+    intro t _
+    obtain ⟨r, v⟩ := t
+    cases r <;> simp
+  · intro k h h'
+    have hk : k < (effTgts i.tgts comps).length := by omega
+    have he : (effTgts i.tgts comps)[k]? = some (effReady i.tgts[k] comps[k]) := by
+      simp [effTgts, List.getElem?_zipWith, List.getElem?_eq_getElem h, List.getElem?_eq_getElem h']
+    have hownk : o.own[k]? = some (if (effReady i.tgts[k] comps[k]).1 then some a else none) := by
+      rw [hown]; simp [List.getElem?_map, he]
+    have hz : ((i.tgts.zip comps).zip o.own)[k]? = some ((i.tgts[k], comps[k]), if (effReady i.tgts[k] comps[k]).1 then some a else none) := by
+      simp [List.getElem?_zip_eq_some, List.getElem?_eq_getElem h, List.getElem?_eq_getElem h', hownk]
+    have hcomp : o.comp[k]? = some (compDone i.tgts[k] comps[k] (if (effReady i.tgts[k] comps[k]).1 then some a else none).isSome) := by
+      simp only [o, withComps] at hz ⊢
+      simp [List.getElem?_map, hz]
+    have hseen : o.seen[k]? = some (seenArg (if (effReady i.tgts[k] comps[k]).1 then some a else none) comps[k]
+        (compDone i.tgts[k] comps[k] (if (effReady i.tgts[k] comps[k]).1 then some a else none).isSome)) := by
+      simp only [o, withComps] at hz ⊢
+      simp [List.getElem?_map, hz]
+    rw [hownk, hcomp, hseen]
+    generalize i.tgts[k] = t
+    generalize comps[k] = c
+    obtain ⟨r, v⟩ := t
+    obtain ⟨f, at'⟩ := c
+    cases r <;> cases f <;> cases at' <;> simp [effReady, compDone, seenArg]
+
+-- OBLIGATION c18_comp_exclusive : any transformer among competing callers (product, filter in both modes, collector): the competitor's call to a target executes only if it attempts and the target is ready, and never in a cycle in which the transformer's transaction uses that target unless the competitor precedes it - in which case the transformer sees the target as not ready (so an exclusive target serves one caller per cycle)
+theorem c18_comp_exclusive (t : Bool × Nat) (c : CompIn) (used : Bool) :
+    (compDone t c used = true → c.att.isSome = true ∧ t.1 = true ∧ (c.first = true ∨ used = false)) ∧
+    (compDone t c used = true → c.first = true → (effReady t c).1 = false) ∧
+    (c.att = none → effReady t c = t) ∧
+    (t.1 = true → c.att.isSome = true → (compDone t c used = true ∨ used = true ∨ c.first = false)) := by
+  obtain ⟨r, v⟩ := t
+  obtain ⟨f, at'⟩ := c
+  cases r <;> cases f <;> cases at' <;> cases used <;> simp [effReady, compDone]
+
 -- OBLIGATION c18_nonex : NonexclusiveWrapper: every attempted caller executes iff the target is ready and receives the target's result; the target is called iff some caller executes; when all simultaneous callers pass the same argument (in particular when there is one caller) the target receives it (every number of callers)
 theorem c18_nonex (i : NIn) :
     (nonexStep i).res.length = i.calls.length ∧
@@ -276,6 +328,13 @@ example :
     delivered (collectorRun [0, 1, 2] cInit is).2 = [2, 4] ∧
     (collectorRun [0, 1, 2] cInit is).1.buf = some 7 := by decide
 
+/-- non-vacuity: a ready target taken by a preceding competitor: success bit 0, target sees the
+    competitor's argument; the later competitor of target 1 is blocked by the own call -/
+example :
+    withComps (tryProductStep (fun l => (l.filter (·.1)).length)) { call := some 2, tgts := [(true, 1), (true, 2)] }
+      [{ first := true, att := some 7 }, { first := false, att := some 8 }]
+      = { res := some 1, own := [none, some 2], comp := [true, false], seen := [some 7, some 2] } := by decide
+
 /-- non-vacuity: try-product with a partial success -/
 example :
     tryProductStep (fun l => (l.filter (·.1)).length) { call := some 2, tgts := [(true, 1), (false, 2), (true, 4)] }
@@ -293,6 +352,8 @@ end TxV.Transformers
 #print axioms TxV.Transformers.c18_filter_nocall
 #print axioms TxV.Transformers.c18_product
 #print axioms TxV.Transformers.c18_tryproduct
+#print axioms TxV.Transformers.c18_tryproduct_own
+#print axioms TxV.Transformers.c18_comp_exclusive
 #print axioms TxV.Transformers.c18_nonex
 #print axioms TxV.Transformers.c18_collector_once
 #print axioms TxV.Transformers.c18_collector_step
